@@ -123,7 +123,9 @@ BY_WIDTH = {w: [n for n, s in NATIVES.items() if s == w] for w in (1, 2, 4, 8)}
 LENGTHS = [1, 2, 3, 7, 8, 32, 255, 256, 1000]
 RESERVED_FIELD_NAMES = ("type_id", "type_name", "type_hash", "type_source", "type_def", "type_size", "hexdump")
 OPT_IN = ("alias-of-imported-struct", "alias-of-imported-struct-field", "struct-contains-message", "string-special",
-          "prefix-names", "zero-length")
+          "prefix-names", "zero-length", "long-names", "fractional-length")
+COVER_NAME_LENGTHS = [1, 2, 31, 32, 40, 45, 46, 47, 48, 63]
+MAX_NAME_LENGTH = 63  # MATLAB's namelengthmax
 MAX_SIZE = 65535
 
 SECTIONS = ["constants", "string_constants", "aliases", "host_ids", "module_ids", "struct_defs", "message_defs"]
@@ -147,6 +149,35 @@ _STRING_WORDS = ["hello world", "rig_A", "v1", "left", "right", "calibration", "
 _STRING_SPECIAL = ['say "hi"', "back\\slash", "it's", "tab\\t", 'q"', "a # b", "50% done", "{curly}"]
 _DIRS = ["", "common", "shared", "proj"]
 _FILEWORDS = ["base", "types", "hardware", "task", "decoder", "stim", "extra", "units", "robot", "logging"]
+
+
+def name_of_length(n: int, used: Set[str], ch: "Chooser") -> str:
+    """A fresh upper-case identifier of exactly ``n`` characters (1 <= n <= 63), legal in Python, C, JavaScript and
+    MATLAB, not in ``used`` (which is updated)."""
+    if not 1 <= n <= MAX_NAME_LENGTH:
+        raise ValueError(n)
+    letters = "QXZKJVWYGB"
+    if n <= 2:
+        cands = [a for a in letters] if n == 1 else [a + b for a in letters for b in letters + "23456789"]
+        cands = [c for c in cands if c not in used] or [c for c in ("ABCDEFGHLMNOPRSTU" if n == 1 else [x + y for x in "ABCDEFGH" for y in "ABCDEFGH"]) if c not in used]
+        name = cands[ch.integer(0, len(cands) - 1)]
+        used.add(name)
+        return name
+    parts, total = [], 0
+    while total < n + 1:
+        w = ch.choice(_UP)
+        parts.append(w)
+        total += len(w) + 1
+    name = "_".join(parts)[:n]
+    if name.endswith("_"):
+        name = name[:-1] + "X"
+    k = 0
+    while name in used:
+        k += 1
+        tail = f"{k:X}"
+        name = name[: n - len(tail)] + tail
+    used.add(name)
+    return name
 
 
 # ------------------------------------------------------------------------------------------------
@@ -413,6 +444,7 @@ class Program:
         self.edited = edited
         self.relocated = relocated
         self.noise = None
+        self.expected_error: Optional[str] = None  # exception class name an ill-formed program must be rejected with
         self._files = files
         self._an = None
 
@@ -457,7 +489,7 @@ class Program:
         return {
             "root": self.root, "options": self.options, "shape": self.shape, "classes": sorted(self.classes),
             "wellformed": self.wellformed, "conflict": self.conflict, "expect": self.expect, "edited": self.edited,
-            "relocated": self.relocated, "noise": self.noise, "files": dict(self.files), "specs": [asdict(s) for s in self.specs],
+            "relocated": self.relocated, "noise": self.noise, "expected_error": self.expected_error, "files": dict(self.files), "specs": [asdict(s) for s in self.specs],
         }
 
     @classmethod
@@ -466,12 +498,15 @@ class Program:
                 set(d.get("classes", ())), d.get("wellformed", True), d.get("conflict"), d.get("expect"),
                 files=dict(d["files"]) if d.get("files") else None, edited=d.get("edited"), relocated=d.get("relocated"))
         p.noise = d.get("noise")
+        p.expected_error = d.get("expected_error")
         return p
 
     def clone(self) -> "Program":
-        return Program(copy.deepcopy(self.specs), self.root, self.options, self.shape, set(self.classes), self.wellformed,
-                       copy.deepcopy(self.conflict), copy.deepcopy(self.expect), None, copy.deepcopy(self.edited),
-                       copy.deepcopy(self.relocated))
+        q = Program(copy.deepcopy(self.specs), self.root, self.options, self.shape, set(self.classes), self.wellformed,
+                    copy.deepcopy(self.conflict), copy.deepcopy(self.expect), None, copy.deepcopy(self.edited),
+                    copy.deepcopy(self.relocated))
+        q.expected_error = self.expected_error
+        return q
 
     # ---- structure -------------------------------------------------------------------------------
     def spec(self, path: str) -> FileSpec:
@@ -1072,6 +1107,11 @@ class _Builder:
                     self.names.add(cand)
                     self.classes.add("prefix-names")
                     return cand
+        if "long-names" in self.allow and ch.chance(0.2):
+            ln = ch.choice(COVER_NAME_LENGTHS) if ch.chance(0.6) else ch.integer(1, MAX_NAME_LENGTH)
+            self.classes.add("long-names")
+            self.classes.add(f"name-length-{ln}" if ln in COVER_NAME_LENGTHS else "name-length-other")
+            return name_of_length(ln, self.names, ch)
         a = ch.choice(_UP)
         n = a + "_" + ch.choice([w for w in _UP if w != a])
         if ch.chance(0.25):
@@ -1143,8 +1183,12 @@ class _Builder:
         for _ in range(quota["constant"]):
             ints_imp = [d for d in self.visible_defs(vis_files, ["constant"]) if isinstance(d.value, int) and 1 <= d.value <= 1000]
             ints_loc = [d for d in local if d.kind == "constant" and isinstance(d.value, int) and 1 <= d.value <= 1000]
+            kind = ch.weighted([("int", 5), ("expr", 4 if (ints_imp or ints_loc) else 0), ("float", 2), ("hex", 1), ("family", 3)])
+            if kind == "family":
+                for d in self.gen_family(path):
+                    add(d)
+                continue
             name = self.fresh_name()
-            kind = ch.weighted([("int", 5), ("expr", 4 if (ints_imp or ints_loc) else 0), ("float", 2), ("hex", 1)])
             flags = []
             if kind == "int":
                 v = ch.choice(LENGTHS + [4, 16, 64, 100])
@@ -1227,6 +1271,38 @@ class _Builder:
                 d = self.gen_record("message", path, vis_files, local)
                 if d is not None:
                     add(d)
+
+    def gen_family(self, path: str) -> List[Def]:
+        """Constants whose names are prefixes / suffixes / infixes of one another (N, N1, N10, MAX_N, N_MAX), plus
+        expressions that use two of them together, shorter name first and longer name first.  Substituting a name
+        textually instead of word-bounded corrupts those expressions."""
+        ch, cs = self.ch, self.ch.cos
+        base = None
+        for cand in cs.shuffled(["N", "LEN", "CHANS", "NUM", "DIM", "SZ", "CNT", "ROWS"]):
+            if cand not in self.names and cs.chance(0.6):
+                base = cand
+                break
+        if base is None:
+            base = self.fresh_name()
+        self.names.add(base)
+        patterns = [base + "1", base + "10", "MAX_" + base, base + "_MAX", base + "_" + base, "N" + base, base + "S"]
+        members = [base]
+        for nm in cs.shuffled(patterns)[: ch.integer(1, 3)]:
+            if nm not in self.names and len(nm) <= MAX_NAME_LENGTH:
+                self.names.add(nm)
+                members.append(nm)
+        values = cs.shuffled([2, 3, 4, 5, 6, 7, 8, 12, 16, 24, 32])
+        out = [Def("constant", nm, path, value=values[i], text=str(values[i]), flags=["const-int", "const-family"])
+               for i, nm in enumerate(members)]
+        if len(out) >= 2:
+            for _ in range(ch.integer(1, 2)):
+                a, b = cs.shuffled(out)[:2]
+                text, v = ch.choice([(f"{a.name} + {b.name}", a.value + b.value), (f"{a.name} * 2 + {b.name}", a.value * 2 + b.value),
+                                     (f"{b.name} * {a.name}", a.value * b.value), (f"({a.name} + 1) * {b.name}", (a.value + 1) * b.value),
+                                     (f"{a.name} + {b.name} + {a.name}", 2 * a.value + b.value)])
+                out.append(Def("constant", self.fresh_name(), path, value=v, text=text, flags=["const-expr", "const-family", "family-expr"]))
+        self.classes.add("const-family")
+        return out
 
     def gen_reserved(self, path: str) -> Def:
         ch = self.ch
@@ -1375,14 +1451,29 @@ class _Builder:
             length, ltext = None, None
             if ch.chance(0.4):
                 room = (budget - off) // es
-                if consts and ch.chance(0.35):
-                    c = ch.choice(consts)
-                    ltext, length = self.expr_over(c.name, c.value, limit=max(1, room))
+                if consts and ch.chance(0.4):
+                    fam = [(x, y) for x in consts for y in consts if x is not y and x.name in y.name]
+                    div = [(x, y) for x in consts for y in consts if x is not y and y.value > 1 and x.value % y.value == 0]
+                    how = ch.weighted([("one", 6), ("family", 5 if fam else 0), ("div", 3 if div else 0)])
+                    if how == "family":
+                        x, y = ch.choice(fam[:16])
+                        ltext, length = ch.choice([(f"{x.name} + {y.name}", x.value + y.value), (f"{y.name} + {x.name}", x.value + y.value),
+                                                   (f"{y.name} * {x.name}", x.value * y.value), (f"{x.name} * 2 + {y.name}", 2 * x.value + y.value)])
+                        fl.add("family-length")
+                    elif how == "div":
+                        x, y = ch.choice(div[:16])
+                        ltext, length = f"{x.name} / {y.name}", x.value // y.value  # exact: the compiler sees e.g. 2.0
+                    else:
+                        c = ch.choice(consts)
+                        ltext, length = self.expr_over(c.name, c.value, limit=max(1, room))
                     length = int(length)
-                    if length > room:
+                    if length > room or length < 1:
                         length, ltext = None, None
+                        fl.discard("family-length")
                     else:
                         fl.add("expr-length")
+                        if "/" in ltext:
+                            fl.add("div-length")
                 else:
                     ok = [L for L in LENGTHS if L <= room]
                     if ok:
@@ -1563,7 +1654,112 @@ def build_program(ch: Chooser, max_files: int = 6, min_files: int = 1, import_co
     probs = prog.problems()
     if probs:
         raise GeneratorBug("generated program is not well-formed: " + "; ".join(probs[:5]) + "\n" + json.dumps(prog.files, indent=1))
+    if "fractional-length" in allow and ch.chance(0.7):
+        prog = add_fractional_length(prog, ch) or prog
     return prog
+
+
+FRACTIONAL_VARIANTS = ["below-one", "zero", "truncated"]
+
+
+def add_fractional_length(program: Program, ch: Chooser, variant: Optional[str] = None) -> Optional[Program]:
+    """Copy of a well-formed program in which one message gets an extra array field whose length expression uses '/'
+    and does not evaluate to a whole number >= 1:
+      "below-one"  0 < x < 1 (e.g. 4 / 8)   -> must be rejected: wellformed False, expected_error "RTMASyntaxError"
+      "zero"       0.0 (e.g. 0 / 8)          -> must be rejected likewise
+      "truncated"  non-integral >= 1 (5 / 2) -> the compiler truncates (int()): accepted with length 2, wellformed stays True
+    ``expect`` = {"outcome": "RTMASyntaxError"|"ok", "at": message name}; the model's FieldSpec.length is int(value)
+    (0 for the rejected variants).  Two fresh constants are added to the message's file.  None if not applicable."""
+    variant = variant or ch.choice(FRACTIONAL_VARIANTS)
+    cands = [d for d in program.defs if d.kind == "message" and d.fields is not None]
+    if variant == "truncated" and program.validate_alignment and not program.auto_pad:
+        return None
+    if not cands:
+        return None
+    q = program.clone()
+    target = ch.choice(cands)
+    d = [x for x in q.spec(target.file).defs if x.name == target.name and x.kind == "message"][0]
+    ctx = _Ctx(q, ch)
+    num, den = {"below-one": ch.choice([(4, 8), (1, 2), (3, 1000), (7, 8)]), "zero": (0, ch.choice([8, 3])),
+                "truncated": ch.choice([(5, 2), (7, 2), (10, 4), (9, 8)])}[variant]
+    a, b = ctx.fresh_name(), ctx.fresh_name()
+    spec = q.spec(target.file)
+    spec.defs.append(Def("constant", a, spec.path, value=num, text=str(num), flags=["const-int"]))
+    spec.defs.append(Def("constant", b, spec.path, value=den, text=str(den), flags=["const-int"]))
+    used = {f.name for f in d.fields}
+    base = ch.choice(["int32", "uint8", "double", "int16"]) if variant != "truncated" else "uint8"
+    ltext = f"{a} / {b}"
+    length = int(num / den)
+    f = FieldSpec(ctx.fresh_field(used), f"{base}[{ltext}]", base, length, ltext)
+    if variant == "truncated":
+        d.fields.append(f)
+    else:
+        d.fields.insert(ch.integer(0, len(d.fields)), f)
+    cls = f"fractional-length/{variant}"
+    d.flags = sorted(set(d.flags) | {"fractional-length", cls})
+    q.classes |= {"fractional-length", cls}
+    if variant == "truncated":
+        q.expect = {"outcome": "ok", "at": d.name}
+        q.rerender()
+        if q.problems():
+            return None
+    else:
+        q.wellformed = False
+        q.expected_error = "RTMASyntaxError"
+        q.expect = {"outcome": "RTMASyntaxError", "at": d.name}
+        q.rerender()
+    return q
+
+
+def build_name_cover_program(ch: Chooser, import_coredefs: bool = False, lengths: Sequence[int] = tuple(COVER_NAME_LENGTHS),
+                             extra_random: int = 2) -> Program:
+    """One well-formed closure (1-2 files) that contains, for EVERY identifier length in ``lengths`` (default
+    COVER_NAME_LENGTHS = 1, 2, 31, 32, 40, 45, 46, 47, 48, 63) plus ``extra_random`` drawn lengths <= 63, a constant, a
+    module id, a host id, a struct, a message and a signal whose names have exactly that length; the message uses the
+    struct and the constant (as array length) of its length class.  Classes: "long-names", "name-length-<n>"."""
+    cs = ch.cos
+    lens = list(lengths) + [cs.integer(3, MAX_NAME_LENGTH) for _ in range(extra_random)]
+    two = ch.chance(0.5)
+    specs = [FileSpec(path="root.yaml", indent=cs.choice([2, 4]))]
+    if two:
+        specs[0].imports.append(["names/long.yaml", "names/long.yaml"])
+        specs.append(FileSpec(path="names/long.yaml", indent=cs.choice([2, 4])))
+    opts = {"auto_pad": True, "validate_alignment": True, "import_coredefs": import_coredefs}
+    prog = Program(specs, "root.yaml", opts, "chain" if two else "single", {"long-names"})
+    used = set(core_defs()["names"]) | set(core_defs()["host_ids"]) | set(core_defs()["module_ids"])
+    ids = iter(cs.shuffled(range(1000, 9999)))
+    mods = iter(cs.shuffled(range(10, 99)))
+    hosts = iter(cs.shuffled(range(1, 32766))[:64])
+    for i, n in enumerate(lens):
+        lib = specs[1] if two and i % 2 else specs[0]
+        top = specs[0]
+        c = Def("constant", name_of_length(n, used, cs), lib.path, value=2 + i % 7, text=str(2 + i % 7), flags=["const-int"])
+        st_ = Def("struct", name_of_length(n, used, cs), lib.path, flags=["struct"],
+                  fields=[FieldSpec("a", "int32", "int32"), FieldSpec("b", f"uint8[{c.name}]", "uint8", c.value, c.name)])
+        m = Def("message", name_of_length(n, used, cs), top.path, id=next(ids), flags=["message"],
+                fields=[FieldSpec("s", st_.name, st_.name), FieldSpec("v", f"double[ {c.name} ]", "double", c.value, c.name)])
+        sg = Def("signal", name_of_length(n, used, cs), lib.path, id=next(ids), flags=["signal"])
+        lib.defs += [c, st_, sg, Def("module", name_of_length(n, used, cs), lib.path, value=next(mods), flags=["module-id"]),
+                     Def("host", name_of_length(n, used, cs), lib.path, value=next(hosts), flags=["host-id"])]
+        top.defs.append(m)
+        prog.classes.add(f"name-length-{n}")
+    prog.rerender()
+    probs = prog.problems()
+    if probs:
+        raise GeneratorBug("name cover program is not well-formed: " + "; ".join(probs[:4]))
+    return prog
+
+
+def name_cover_programs(**kw):
+    from hypothesis import strategies as st
+
+    core_defs()
+
+    @st.composite
+    def _nc(draw):
+        return build_name_cover_program(HypChooser(draw), **kw)
+
+    return _nc()
 
 
 def random_program(seed, **kw) -> Program:
